@@ -411,7 +411,8 @@ func (w *world) childName(n *node) string {
 }
 
 func genOwnAttrs(t *rapid.T) []vlib.ExpAttr {
-	n := rapid.IntRange(1, 3).Draw(t, "nattrs")
+	// 0: an empty list (With(), WithAttrs(), Set() ... are calls like any other: a With... still returns a new child)
+	n := rapid.IntRange(0, 3).Draw(t, "nattrs")
 	var out []vlib.ExpAttr
 	for i := 0; i < n; i++ {
 		k := rapid.StringMatching(`[a-e]`).Draw(t, "akey")
@@ -508,7 +509,7 @@ func genSetting(t *rapid.T, allowSkip bool) setting {
 	case "skip":
 		s.skip = rapid.IntRange(0, 3).Draw(t, "skip")
 	case "ctxkeys":
-		s.nkeys = rapid.IntRange(1, 2).Draw(t, "nkeys")
+		s.nkeys = rapid.IntRange(0, 2).Draw(t, "nkeys")
 	}
 	return s
 }
